@@ -19,8 +19,11 @@ type impFn struct {
 	fd         *ast.FuncDecl
 	name       string
 	recvTy     *ity
-	evRecv     bool     // the "receiver" is the event list of a callback parameter
-	fuels      []string // explicit fuel parameters (loops without a recognised counting pattern)
+	retSelf    bool            // the single result is the receiver pointer itself
+	bigFresh   map[string]bool // big.Int variables currently bound to a fresh object (pool.BigInt.Get): may be overwritten
+	bigUninit  map[string]bool // … whose contents have not been set yet: may not be read
+	evRecv     bool            // the "receiver" is the event list of a callback parameter
+	fuels      []string        // explicit fuel parameters (loops without a recognised counting pattern)
 	usesNumCPU bool
 	recv       string // receiver variable ("" = none); passed and returned by value
 	results    []*ity
@@ -56,7 +59,7 @@ type ictx struct {
 var leanReserved = map[string]bool{"end": true, "from": true, "at": true, "show": true, "then": true, "fun": true, "open": true, "by": true, "do": true, "in": true,
 	"have": true, "let": true, "match": true, "with": true, "if": true, "else": true, "def": true, "theorem": true, "where": true, "namespace": true, "section": true,
 	"instance": true, "structure": true, "class": true, "Type": true, "Prop": true, "Sort": true, "this": true, "W": true, "H": true, "rest_": true, "ret_": true,
-	"some": true, "none": true, "len": true, "copy": true, "index": true, "deref": true, "makeBytes": true, "bytesOfString": true, "numCPU": true, "fuel_": true, "shl64": true, "uintOfInt": true, "min": true, "max": true, "hSize": true, "hBlockSize": true, "copyAt": true, "setAt": true, "byteOfInt": true}
+	"some": true, "none": true, "len": true, "copy": true, "index": true, "deref": true, "makeBytes": true, "bytesOfString": true, "numCPU": true, "fuel_": true, "shl64": true, "uintOfInt": true, "min": true, "max": true, "hSize": true, "hBlockSize": true, "copyAt": true, "setAt": true, "byteOfInt": true, "mul": true, "one": true, "inv": true, "F": true}
 
 func lname(n string) string {
 	if leanReserved[n] {
@@ -188,6 +191,9 @@ func (f *impFn) expr(e ast.Expr, want *ity, c *ictx) (string, *ity) {
 			}
 		}
 		if t := f.lookup(v.Name); t != nil {
+			if f.bigUninit[v.Name] {
+				p.die(e, "%s is read before the fresh big.Int it points to has been set", v.Name)
+			}
 			return lname(v.Name), t
 		}
 		if _, ok := p.errVars[v.Name]; ok {
@@ -494,6 +500,30 @@ func (f *impFn) call(v *ast.CallExpr, want *ity, c *ictx) (string, *ity) {
 			return "bytesOfString " + parenImp(xs), tyBytes
 		}
 		p.die(v, "conversion %v(%v)", t, xt)
+	}
+	if se, ok := v.Fun.(*ast.SelectorExpr); ok {
+		if id, ok := se.X.(*ast.Ident); ok {
+			if t := f.lookup(id.Name); t != nil && t.k == "bigint" {
+				xs, _ := f.expr(id, nil, c)
+				switch {
+				case se.Sel.Name == "IsUint64" && len(v.Args) == 0:
+					return "bigIsUint64 " + xs, tyBool
+				case se.Sel.Name == "Uint64" && len(v.Args) == 0:
+					return "bigUint64 " + xs, tyU64
+				case se.Sel.Name == "Sign" && len(v.Args) == 0:
+					return "bigSign " + xs, tyInt
+				case se.Sel.Name == "BitLen" && len(v.Args) == 0:
+					return "bigBitLen " + xs, tyInt
+				case se.Sel.Name == "Bit" && len(v.Args) == 1:
+					is, it := f.expr(v.Args[0], tyInt, c)
+					if it.k != "int" {
+						p.die(v, "Bit argument")
+					}
+					return "bigBit " + xs + " " + parenImp(is), tyU64
+				}
+				p.die(v, "big.Int method %s in expression position", se.Sel.Name)
+			}
+		}
 	}
 	if x, m, ok := f.hashCall(v, c); ok {
 		if m == "Sum" && len(v.Args) == 1 {
